@@ -5,7 +5,7 @@ import ast
 
 from ..effects import EMPTY, is_top
 from ..model import AnalysisError, dotted, norm_text, unparse, walk_no_nested
-from ..q import NONEXC, Fn
+from ..q import NONEXC, Fn, inline_properties
 from .common import SOCKET, SOCK_CLS, sock_fn
 
 LEVEL = "other"
@@ -65,17 +65,15 @@ def r1(ctx):
     _unsupported(ctx, R, cm, "UnsupportedMessageDecoder", {("header.message_length",): 1}, "header.message_id")
     for gen in ("at4", "at5"):
         xm = ctx.repo.module(f"pyairtouch.{gen}.comms.x1F_ext")
-        f = Fn(ctx.repo, xm, "ExtendedMessageDecoder._sub_message_decoder")
-        ctx.fn(xm, "ExtendedMessageDecoder._sub_message_decoder")
-        _fallback(ctx, R, f, f"{gen}.x1F_ext.ExtendedMessageDecoder._sub_message_decoder", "self._decoder_map.get", "ExtendedMessageDecoder._UNSUPPORTED_DECODER")
+        f, inl = _fallback_fn(ctx, xm, "ExtendedMessageDecoder", "_sub_message_decoder")
+        _fallback(ctx, R, f, f"{gen}.x1F_ext.ExtendedMessageDecoder._sub_message_decoder", "self._decoder_map.get", "ExtendedMessageDecoder._UNSUPPORTED_DECODER", inl)
         _unsupported(ctx, R, xm, "UnsupportedExtendedDecoder", {("header.message_length",): 1}, "header.message_id")
         ci = xm.get_class("ExtendedMessageDecoder")
         v = ci.attrs.get("_UNSUPPORTED_DECODER")
         ctx.check(isinstance(v, ast.Call) and dotted(v.func) == "UnsupportedExtendedDecoder", R, f"{gen}.x1F_ext:_UNSUPPORTED_DECODER", xm, ci.node, "UnsupportedExtendedDecoder()", norm_text(v) if v is not None else "missing")
     c0 = ctx.repo.module("pyairtouch.at5.comms.xC0_ctrl_status")
-    f = Fn(ctx.repo, c0, "ControlStatusDecoder._sub_message_decoder")
-    ctx.fn(c0, "ControlStatusDecoder._sub_message_decoder")
-    _fallback(ctx, R, f, "at5.xC0.ControlStatusDecoder._sub_message_decoder", "self._decoder_map.get", "ControlStatusDecoder._UNSUPPORTED_DECODER")
+    f, inl = _fallback_fn(ctx, c0, "ControlStatusDecoder", "_sub_message_decoder")
+    _fallback(ctx, R, f, "at5.xC0.ControlStatusDecoder._sub_message_decoder", "self._decoder_map.get", "ControlStatusDecoder._UNSUPPORTED_DECODER", inl)
     _unsupported(ctx, R, c0, "UnsupportedControlStatusDecoder", {("header.non_repeat_length",): 1, ("header.repeat_count", "header.repeat_length"): 1}, "header.sub_message_id")
     ci = c0.get_class("ControlStatusDecoder")
     v = ci.attrs.get("_UNSUPPORTED_DECODER")
@@ -86,12 +84,22 @@ def r1(ctx):
     ctx.check(len(rets) == 1 and norm_text(rets[0].value) == "self.unsupported_id" and [n for n, _, _ in um.fields] == ["unsupported_id", "raw_data"], R, "comms.UnsupportedMessage", cm, um.node, "carries unsupported_id (reported as message_id) and raw_data", "different")
 
 
-def _fallback(ctx, R, f: Fn, lab, lookup, fallback):
+def _fallback_fn(ctx, m, cls: str, helper: str):
+    """The helper that picks the decoder, or - when a maintainer inlined it - the decode() method that now contains the lookup."""
+    ci = m.get_class(cls)
+    if helper in ci.methods:
+        ctx.fn(m, f"{cls}.{helper}")
+        return Fn(ctx.repo, m, f"{cls}.{helper}"), False
+    ctx.fn(m, f"{cls}.decode")
+    return Fn(ctx.repo, m, f"{cls}.decode"), True
+
+
+def _fallback(ctx, R, f: Fn, lab, lookup, fallback, inlined=False):
     m, g = f.module, f.cfg
-    raises = [n for n in g.nodes if n.kind == "stmt" and isinstance(n.ast, ast.Raise)]
+    raises = [] if inlined else [n for n in g.nodes if n.kind == "stmt" and isinstance(n.ast, ast.Raise)]
     ctx.check(not raises, R, f"{lab}:never-raises", m, f.node, "an unknown id never raises", f"raise at line {raises[0].lineno}" if raises else "")
     calls = f.calls(lookup.split(".", 1)[1] if lookup.startswith("self.") else lookup)
-    ok = len(calls) == 1 and len(calls[0][1].args) >= 1 and dotted(calls[0][1].args[0]) == f.params[1]
+    ok = len(calls) == 1 and len(calls[0][1].args) >= 1 and (dotted(calls[0][1].args[0]) == f.params[1] or inlined)
     ctx.check(ok, R, f"{lab}:lookup", m, f.node, f"{lookup}(<the id>) - a lookup that returns None on a miss", norm_text(calls[0][1]) if calls else "no .get lookup")
     subs = [x for x in walk_no_nested(f.node) if isinstance(x, ast.Subscript) and isinstance(x.ctx, ast.Load) and "_decoder_map" in norm_text(x.value)]
     ctx.check(not subs, R, f"{lab}:no-indexing", m, f.node, "the map is not indexed with [] (KeyError on unknown ids)", norm_text(subs[0]) if subs else "")
@@ -111,6 +119,14 @@ def _fallback(ctx, R, f: Fn, lab, lookup, fallback):
         r = [n for n in rets if g.dominates(none_b.id, n.id)]
         if r and all(norm_text(n.ast.value) == fallback for n in r):
             miss_ok = True
+    if inlined and var is not None:
+        # the lookup sits in decode(): on a miss the variable is re-assigned the fallback before its .decode() is called
+        uses = [n for n, c in f.calls(f"{var}.decode")]
+        for t, present in f.presence(var):
+            mb = f.branch(t, "false" if present == "true" else "true")
+            re = [n for n, v in f.assigns(var) if v is not None and norm_text(v) == fallback and g.dominates(mb.id, n.id)]
+            if re and uses and all(g.all_paths_pass(mb.id, [u.id], [n.id for n in re], NONEXC) for u in uses):
+                miss_ok = True
     ctx.check(miss_ok, R, f"{lab}:miss-returns-fallback", m, f.node, f"a miss returns {fallback}; a hit returns the registered decoder", "; ".join(norm_text(n.ast) for n in rets))
 
 
@@ -146,6 +162,10 @@ def _unsupported(ctx, R, m, clsname, want_len, want_id):
     raw, rem = kws.get("raw_data"), kws.get("remaining")
     a = slice_of(raw, False) if raw is not None else None
     b = slice_of(rem, True) if rem is not None else None
+    harg = next((x for x in fn.args.args if x.arg == hdr), None)
+    hci = ctx.repo.resolve_class(m, harg.annotation) if harg is not None and harg.annotation is not None else None
+    a = inline_properties(ctx.repo, m, a, hdr, hci) if a is not None else None
+    b = inline_properties(ctx.repo, m, b, hdr, hci) if b is not None else None
     try:
         pa = poly(a) if a is not None else None
         pb = poly(b) if b is not None else None
